@@ -22,7 +22,7 @@ resolution (Spec/Scope.lean).
   aligned <og> <sf> <kw> <tree>    `alignedOf` (Proofs/ObfBindCond.lean): the decidable agreement of the obfuscator's tables with
                                    ES5 scoping on the program (hypothesis of `binding_preserved_partial`);  reply OK T|F
   excluded <og> <tree>             the program is in one of the three recorded deviation classes (Proofs/ObfExcluded.lean);
-                                   reply OK <T|F> <kfA T|F> <kfB T|F> <kfC T|F>
+                                   reply OK <T|F> <kfA T|F> <kfB T|F> <kfC T|F> <kfE T|F>
   errors: ERR <PythonExceptionClass|unmodelled|fuel> <detail>,  ERR request …
 
 Paths are written root first as `attr.index/attr.index/…` (the empty path is the empty string).
@@ -168,7 +168,7 @@ def handle (line : String) : String :=
     if og != "0" && og != "1" then "ERR request bad flags"
     else withTree rest fun tree =>
       let b (x : Bool) : String := if x then "T" else "F"
-      "OK " ++ b (excluded (og == "1") tree) ++ " " ++ b (kfA tree) ++ " " ++ b (kfB (og == "1") tree) ++ " " ++ b (kfC tree)
+      "OK " ++ b (excluded (og == "1") tree) ++ " " ++ b (kfA tree) ++ " " ++ b (kfB (og == "1") tree) ++ " " ++ b (kfC tree) ++ " " ++ b (kfE (og == "1") tree)
   | "frags" :: rsName :: ind :: og :: sf :: kw :: rest =>
     match findRuleSet rsName, parseIndent ind, parseFlags og sf kw with
     | none, _, _ => "ERR request unknown rule set"
